@@ -645,7 +645,7 @@ func TestC01Network(t *testing.T) {
 // ---- generator clause ----
 
 func TestC01Generator(t *testing.T) {
-	core.Run(t, core.Opts{ID: "C01", Quick: 60, Thorough: 1500}, func(c *core.Case) {
+	core.Run(t, core.Opts{ID: "C01", Quick: 150, Thorough: 3000}, func(c *core.Case) {
 		var accept, ignore []netip.Prefix
 		mk := func(label string, minBits, maxBits int) netip.Prefix {
 			bits := c.Int(label+".bits", minBits, maxBits)
@@ -686,6 +686,7 @@ func TestC01Generator(t *testing.T) {
 			ignore = append(ignore, p)
 		}
 		maxEasing := uint64(core.OneOf(c, "maxEasing", 0, 1, 20, 2000))
+		ignoreWas := append([]netip.Prefix(nil), ignore...)
 		var addr *m.Address
 		var tries int
 		var err error
@@ -725,8 +726,8 @@ func TestC01Generator(t *testing.T) {
 		if !in {
 			c.Fatalf("generated address %s lies in none of the requested prefixes %v", addr.IP, accept)
 		}
-		for _, p := range ignore {
-			if p.Contains(addr.IP) {
+		for _, p := range ignoreWas {
+			if !privacy && p.Contains(addr.IP) {
 				c.Fatalf("generated address %s lies in the ignored prefix %s", addr.IP, p)
 			}
 		}
@@ -746,8 +747,50 @@ func TestC01Generator(t *testing.T) {
 		if err != nil || re.IP != addr.IP || !bytes.Equal(re.PublicKey, addr.PublicKey) || !bytes.Equal(re.PrivateKey, addr.PrivateKey) || re.Easing != addr.Easing || re.Hash != addr.Hash || re.Type != addr.Type {
 			c.Fatalf("generated identity does not reload from its stored form: %v", err)
 		}
-		c.Eval(fmt.Sprintf("gen|%v|%v|%d|%v", accept, ignore, maxEasing, privacy), len(ignore) > 0 || maxEasing > 0, func() any {
-			return map[string]any{"entry": "generator", "accept": fmt.Sprint(accept), "ignore": fmt.Sprint(ignore), "max_easing": maxEasing, "address": addr.IP.String(), "easing": addr.Easing, "tries": tries}
+		// A program that makes several identities passes the same lists again: a
+		// second identity, wanted in the area around one of the ignored ranges
+		// (preferably one that had nothing to do with the first request). The
+		// verdict is taken against copies of the lists made before the first call.
+		if !privacy && len(ignore) > 0 && c.Chance("second", 2, 3) {
+			k := c.Pick("second.around", len(ignore))
+			for i, ig := range ignoreWas {
+				unrelated := true
+				for _, ap := range accept {
+					if ap.Overlaps(ig) {
+						unrelated = false
+					}
+				}
+				if unrelated && c.Chance("second.around-an-unrelated-one", 3, 4) {
+					k = i
+					break
+				}
+			}
+			wide, _ := ignoreWas[k].Addr().Prefix(max(ignoreWas[k].Bits()-c.Int("second.wider", 1, 2), 8))
+			accept2 := []netip.Prefix{wide}
+			var addr2 *m.Address
+			var err2 error
+			ctx2, cancel2 := context.WithTimeout(context.Background(), 60*time.Second)
+			defer cancel2()
+			if p := c01Recover(func() { addr2, _, err2 = m.GenerateRoutableAddress(ctx2, accept2, ignore, maxEasing) }); p != nil {
+				c.Fatalf("second address generation panicked: %v", p)
+			}
+			if err2 == nil {
+				if !wide.Contains(addr2.IP) {
+					c.Fatalf("second generated address %s lies outside the requested prefix %s", addr2.IP, wide)
+				}
+				for _, ig := range ignoreWas {
+					if ig.Contains(addr2.IP) {
+						c.Fatalf("second identity made with the same lists: address %s lies in the ignored prefix %s (lists given: accept %v, ignore %v; first request was for %v)", addr2.IP, ig, accept2, ignoreWas, accept)
+					}
+				}
+				if err := addr2.VerifyAddress(); err != nil {
+					c.Fatalf("second generated identity does not verify: %v", err)
+				}
+				c.Class("generator/second-identity-from-the-same-lists")
+			}
+		}
+		c.Eval(fmt.Sprintf("gen|%v|%v|%d|%v", accept, ignoreWas, maxEasing, privacy), len(ignore) > 0 || maxEasing > 0, func() any {
+			return map[string]any{"entry": "generator", "accept": fmt.Sprint(accept), "ignore": fmt.Sprint(ignoreWas), "max_easing": maxEasing, "address": addr.IP.String(), "easing": addr.Easing, "tries": tries}
 		})
 	})
 }
